@@ -68,8 +68,18 @@ func addGobModel(P *Program) {
 		if len(dst) != len(rec.fields) {
 			return i.mkError("gob: type mismatch")
 		}
+		// gob does not transmit zero-valued fields: the corresponding fields of the target keep
+		// whatever they held before Decode
 		for k := range dst {
-			dst[k] = rec.fields[k]
+			v := rec.fields[k]
+			if sv, ok := v.(symv); ok {
+				if i.branch(Eq(sv.t, BVConst(sv.t.sort, 0))) {
+					continue
+				}
+			} else if _, bits, ok := intKind(v); ok && bits == 0 {
+				continue
+			}
+			dst[k] = v
 		}
 		return iface{}
 	}
